@@ -19,7 +19,9 @@ RULE = ('one case = one seeded execution of a 2-4 voter cluster (real TCPTranspo
         'the detection bound while everything else runs - both ends must report it disconnected; (2) the network heals - within '
         'connectionRetryTime + detection bound every pair has one connection that both registries hold, isNodeConnected agrees on '
         'both sides and uniquely tagged probe messages pass in both directions; every probe ever delivered must be attributed to '
-        'the member that sent it; distinct = distinct event/state log digest; non-trivial = at least 2 connection-level fault kinds '
+        'the member that sent it; (3, half of the runs with 3+ voters, dynamicMembershipChange) a member is removed - while up, '
+        'while down, or while down with the others restarted since - and runs again with its old configuration: no message attributed '
+        'to it may be delivered by a remaining member\'s transport and no connection may be registered for it; distinct = distinct event/state log digest; non-trivial = at least 2 connection-level fault kinds '
         'fired and at least one probe was delivered after them')
 COMPONENTS_REAL = REAL_CLUSTER
 COMPONENTS_STUB = STUB_CLUSTER + ['TCP keep-alive (modelled: an endpoint with SO_KEEPALIVE is reset after KEEPIDLE+KEEPINTVL*KEEPCNT of a dark path)']
@@ -39,6 +41,8 @@ class ProbeTap(object):
     def on_recv(self, dst, node, msg):
         if isinstance(msg, dict) and msg.get('type') == 'probe':
             self.o.on_probe(dst, node, msg)
+        else:
+            self.o.on_any(dst, node, msg)
 
 
 class C14App(KVApp):
@@ -60,6 +64,16 @@ class C14App(KVApp):
             if world.oracle is not None:
                 world.oracle.probes_sent[pid] = (src, dst, ok)
             return ('sent' if ok else 'notconnected', src)
+        if ev[1] == 'mrem':
+            h = world.hosts[ev[2]]
+            if h.node is None:
+                return 'down'
+            world.cur = h.idx
+            try:
+                h.node.removeNodeFromCluster(world.hosts[ev[3]].addr, callback=lambda res, err: None)
+            except Exception as e:
+                return 'exc:' + type(e).__name__
+            return ('ok', h.idx)
         raise HarnessError('unknown event %r' % (ev,))
 
 
@@ -86,6 +100,13 @@ class C14Oracle(RaftOracle):
         sent = self.probes_sent.get(msg['id'])
         if sent is not None and sent[1] != dst:
             self.flag('message_misattributed', 'probe %r sent by host %d to host %d was delivered to host %d' % (msg['id'], sent[0], sent[1], dst))
+
+    def on_any(self, dst, node, msg):
+        """Every message the transport hands to SyncObj must be attributed to a node of the receiver's current node set."""
+        n = self.w.hosts[dst].node
+        if n is not None and node not in n.otherNodes and node not in n.readonlyNodes:
+            self.flag('message_from_non_member', 'host %d: the transport delivered a %s message attributed to %s, which is not (any more) in its node set' % (
+                dst, msg.get('type') if isinstance(msg, dict) else type(msg).__name__, node.id))
 
     def summary(self):
         s = RaftOracle.summary(self)
@@ -133,6 +154,7 @@ def conn_state(w, a, b):
 
 
 class C14Spec(c01.C01Spec):
+    churn_share = 0
     prop = PROP
     invariants = INVARIANTS
 
@@ -160,6 +182,9 @@ class C14Spec(c01.C01Spec):
         s['w_start'] = rng.choice([0.05, 0.5])
         s['w_probe'] = rng.choice([0.1, 0.4])
         s['w_heal'] = 0.03
+        if cfg['n_voters'] >= 3 and rng.random() < 0.5:
+            conf['dynamicMembershipChange'] = True
+            cfg['removal_phase'] = rng.choice(['up', 'down', 'down_restart_others', 'down_restart_others'])
         return cfg
 
     def make_app(self, cfg):
@@ -248,6 +273,63 @@ class C14Spec(c01.C01Spec):
                         and not c.csock.reset and not c.ssock.reset]
                 if len(live) > 1:
                     orc.flag('duplicate_live_connection', 'hosts %d and %d hold %d live connections after the quiet period' % (a, b, len(live)))
+                    return
+        # phase 3: a member is removed (while up, while down, or while down and the others were restarted since it was last
+        # seen) and then runs again with its old configuration: nothing of it may reach the remaining members
+        mode = cfg.get('removal_phase')
+        if mode and n >= 3:
+            self.removal_phase(w, orc, sch, apply, rounds, mode, det)
+
+    def removal_phase(self, w, orc, sch, apply, rounds, mode, det):
+        import random as _random
+        r = _random.Random(w.seed * 31 + 7)
+        n = len(w.hosts)
+        lead = sch.leader_idx()
+        if lead is None:
+            w.probe('removal_phase_no_leader')
+            return
+        cand = [i for i in range(n) if i != lead]
+        # the node with the greatest address dials everybody else: the accepting side has to recognise it
+        x = max(cand) if r.random() < 0.5 else r.choice(cand)
+        others = [i for i in range(n) if i != x]
+        if mode != 'up':
+            apply([0.0, 'kill', x, 1])
+        if mode == 'down_restart_others':
+            k = r.choice([1, len(others)])
+            for i in r.sample(others, k):
+                apply([0.0, 'kill', i, 1])
+                apply([0.0, 'start', i])
+            if not rounds(4 * w.cfg['conf']['raftMaxTimeout'] + 1.0):
+                return
+        lead = sch.leader_idx()
+        if lead is None or lead == x:
+            w.probe('removal_phase_no_leader')
+            return
+        apply([0.0, 'mrem', lead, x])
+        xaddr = w.hosts[x].addr
+        t0 = w.T
+        gone = False
+        while w.T - t0 < det + 2.0 and not gone:
+            if not rounds(0.2):
+                return
+            gone = all(w.hosts[i].node is None or all(nd.id != xaddr for nd in w.hosts[i].node.otherNodes) for i in others)
+        if not gone:
+            w.probe('removal_not_applied')
+            return
+        w.probe('removal_applied_' + mode)
+        if w.hosts[x].node is None:
+            apply([0.0, 'start', x])
+        if not rounds(w.cfg['conf']['connectionRetryTime'] + 3 * w.cfg['conf']['raftMaxTimeout'] + 2.0):
+            return
+        CS = M.tc.CONNECTION_STATE
+        for i in others:
+            nd = w.hosts[i].node
+            if nd is None:
+                continue
+            tr = priv(nd, 'SyncObj', 'transport')
+            for node, c in tr._connections.items():
+                if node.id == xaddr and c.state == CS.CONNECTED:
+                    orc.flag('message_from_non_member', 'host %d holds a connected connection registered for the removed node %s' % (i, xaddr))
                     return
 
     def nontrivial(self, res):
